@@ -3,6 +3,7 @@ INVARIANT AssocLaw
 INVARIANT ReflectLaw
 INVARIANT GaussLaw
 INVARIANT AtomsLaw
+INVARIANT RescaleLaw
 INVARIANT Emit
 INVARIANT EmitUnits
 CHECK_DEADLOCK FALSE
